@@ -164,6 +164,7 @@ class PathState:
         self.fresh = 0
         self.effects = []      # attribute stores / mutating calls seen on the path
         self.yields = None
+        self.stack = []        # environments of the callers of the function being evaluated (forked with the path)
 
     def copy(self):
         p = PathState()
@@ -172,6 +173,7 @@ class PathState:
         p.truth = list(self.truth)
         memo = {}
         p.env = {k: _deep(v, memo) for k, v in self.env.items()}
+        p.stack = [{k: _deep(v, memo) for k, v in fr.items()} for fr in self.stack]
         p.fields = {k: _deep(v, memo) for k, v in self.fields.items()}
         p.fresh = self.fresh
         p.effects = list(self.effects)
@@ -227,6 +229,14 @@ def values_equal(a, b):
     return None
 
 
+def _lookup_error(v):
+    """'KeyError' / 'IndexError' when the value is the result of a lookup that certainly failed"""
+    if isinstance(v, CallV) and v.name == 'raise' and len(v.args) == 1 and isinstance(v.args[0], Opaque) \
+            and v.args[0].text in ('KeyError', 'IndexError'):
+        return v.args[0].text
+    return None
+
+
 class SymEx:
     def __init__(self, repo, universe=None, inline=None, opaque=None, max_depth=8, ignore_calls=('_debug',)):
         """universe(path) -> iterable of class names a pattern variable may have (None = unknown);
@@ -272,7 +282,7 @@ class SymEx:
                 env[k2] = v2
         if func.node.args.vararg is not None:
             env[func.node.args.vararg.arg] = ListV(a[len(params):], True)
-        saved = st.env
+        st.stack.append(st.env)
         st.env = env
         outs = []
         gen = func.is_generator and not func.is_contextmanager
@@ -283,7 +293,7 @@ class SymEx:
             if gen:
                 v = s.yields
                 s.yields = saved_y
-            s.env = saved
+            s.env = s.stack.pop()       # every path has its own copy of the caller's frame
             outs.append((s, None if v is NORET else v))
         return outs
 
@@ -385,6 +395,9 @@ class SymEx:
         if isinstance(s, ast.Assign):
             out = []
             for s2, v in self.ev(s.value, st, func):
+                if _lookup_error(v):
+                    out.append((s2, v))         # the lookup failed: the statement is abandoned
+                    continue
                 for t in s.targets:
                     self.assign(t, v, s2, func)
                 out.append((s2, NORET))
@@ -487,6 +500,26 @@ class SymEx:
             # no exception is assumed inside the evaluated subset: body, else, finally
             out = []
             for s2, rv in self.block(s.body, st, func):
+                kind = _lookup_error(rv)
+                if kind:
+                    # a failed dict / sequence lookup is the one exception the evaluated subset raises and catches
+                    hnd = None
+                    for h in s.handlers:
+                        names = [norm(x) for x in (h.type.elts if isinstance(h.type, ast.Tuple) else [h.type])] if h.type is not None else None
+                        if names is None or any(n.split('.')[-1] in (kind, 'LookupError', 'Exception', 'BaseException') for n in names):
+                            hnd = h
+                            break
+                    if hnd is not None:
+                        if hnd.name:
+                            s2.env[hnd.name] = Opaque(kind)
+                        res = self.block(hnd.body, s2, func)
+                        for s3, rv3 in res:
+                            if s.finalbody:
+                                for s4, rv4 in self.block(s.finalbody, s3, func):
+                                    out.append((s4, rv3 if rv4 is NORET else rv4))
+                            else:
+                                out.append((s3, rv3))
+                        continue
                 if rv is NORET and s.orelse:
                     res = self.block(s.orelse, s2, func)
                 else:
@@ -534,7 +567,7 @@ class SymEx:
                 vals = ([target[2]] if target[0] == 'bound' else []) + args
                 for p, a in zip(ps, vals):
                     env[p] = a
-                saved = cur.env
+                cur.stack.append(cur.env)
                 cur.env = env
                 res = self.block(body[:idx[0]], cur, m)
                 for c2, rv in res:
@@ -543,7 +576,7 @@ class SymEx:
                     if yexpr is not None:
                         yv = self.ev(yexpr, c2, m)[0][1]
                     menv = c2.env
-                    c2.env = saved
+                    c2.env = c2.stack.pop()
                     if item.optional_vars is not None:
                         self.assign(item.optional_vars, yv, c2, func)
                     nxt.append((c2, exits + [(m, body[idx[0] + 1:], menv)]))
@@ -555,10 +588,10 @@ class SymEx:
                 for m, tail, menv in reversed(exits):
                     n2 = []
                     for c3, rv3 in cs:
-                        saved = c3.env
+                        c3.stack.append(c3.env)
                         c3.env = menv
                         for c4, rv4 in self.block(tail, c3, m):
-                            c4.env = saved
+                            c4.env = c4.stack.pop()
                             n2.append((c4, rv3))
                     cs = n2
                 out.extend(cs)
@@ -987,7 +1020,7 @@ class SymEx:
                                 if br:
                                     out.append((s4, v))
                     else:
-                        out.append((s3, CallV('raise', [Opaque('KeyError')])))
+                        out.append((s3, CallV('raise', [Opaque('KeyError' if not undecided else 'KeyError?')])))
                 elif isinstance(b, Const) and isinstance(b.v, str) and isinstance(i, Const) and isinstance(i.v, int):
                     try:
                         out.append((s3, Const(b.v[i.v])))
@@ -1208,13 +1241,13 @@ class SymEx:
             return [(st, CallV(m.name, args, node=e))]
         if isinstance(f, tuple) and f[0] == 'lambda':
             lam, lf = f[1], f[2]
-            saved = st.env
+            st.stack.append(st.env)
             st.env = dict(f[3]) if len(f) > 3 else dict(st.env)
             for p, a in zip([x.arg for x in lam.args.args], args):
                 st.env[p] = a
             res = self.ev(lam.body, st, lf)
             for s2, _ in res:
-                s2.env = saved
+                s2.env = s2.stack.pop()
             return res
         if isinstance(f, tuple) and f[0] == 'method':
             return self.method(e, f[1], f[2], args, kw, st, func)
